@@ -14,6 +14,8 @@
     10  seg p(2) accuracy                           [distance_sq]      1e-12
     11  cubic(8) p(2) n                             [t]                1e-9   (structured inputs, given count)
     12  cubic(8) p(2) n                             [distance_sq]      1e-12
+    op + 20: the same against the repaired model ([quad_nearest_repaired], ...), used when the
+    harness finds that the implementation carries proposed_fixes/C09-nearest-degenerate-quad.diff
 *)
 From Coq Require Import ZArith Floats List Bool.
 From KV Require Import Scalar F64 Geom Curves Solvers Nearest Corr C06_corr.
@@ -32,40 +34,50 @@ Definition mkq (x0 y0 x1 y1 x2 y2 : float) : QuadBez float :=
 Definition mkc (x0 y0 x1 y1 x2 y2 x3 y3 : float) : CubicBez float :=
   mkCubic (mkPoint x0 y0) (mkPoint x1 y1) (mkPoint x2 y2) (mkPoint x3 y3).
 
-Definition eval (op : Z) (a : list float) : option (list float) :=
+(* [rep]: the implementation is the repaired one (proposed_fixes/C09-nearest-degenerate-quad.diff);
+   the harness detects this and adds 20 to the operation number *)
+Definition qn (rep : bool) := if rep then @quad_nearest_repaired float _ else @quad_nearest float _.
+Definition cn (rep : bool) := if rep then @cubic_nearest_repaired float _ else @cubic_nearest float _.
+Definition cnn (rep : bool) := if rep then @cubic_nearest_n_repaired float _ else @cubic_nearest_n float _.
+Definition sn (rep : bool) := if rep then @seg_nearest_repaired float _ else @seg_nearest float _.
+
+Definition eval_v (rep : bool) (op : Z) (a : list float) : option (list float) :=
   match op, a with
   | 1, [x0; y0; x1; y1; x; y] =>
       let '(t, d) := line_nearest (mkLine (mkPoint x0 y0) (mkPoint x1 y1)) (mkPoint x y) in Some [t; d]
-  | 2, [x0; y0; x1; y1; x2; y2; x; y] => t_out (quad_nearest (mkq x0 y0 x1 y1 x2 y2) (mkPoint x y))
-  | 3, [x0; y0; x1; y1; x2; y2; x; y] => d_out (quad_nearest (mkq x0 y0 x1 y1 x2 y2) (mkPoint x y))
-  | 4, [x0; y0; x1; y1; x2; y2; x; y] => pair_out (quad_nearest (mkq x0 y0 x1 y1 x2 y2) (mkPoint x y))
+  | 2, [x0; y0; x1; y1; x2; y2; x; y] => t_out (qn rep (mkq x0 y0 x1 y1 x2 y2) (mkPoint x y))
+  | 3, [x0; y0; x1; y1; x2; y2; x; y] => d_out (qn rep (mkq x0 y0 x1 y1 x2 y2) (mkPoint x y))
+  | 4, [x0; y0; x1; y1; x2; y2; x; y] => pair_out (qn rep (mkq x0 y0 x1 y1 x2 y2) (mkPoint x y))
   | 5, [x0; y0; x1; y1; x2; y2; x3; y3; x; y; acc] =>
-      t_out (cubic_nearest (mkc x0 y0 x1 y1 x2 y2 x3 y3) (mkPoint x y) acc)
+      t_out (cn rep (mkc x0 y0 x1 y1 x2 y2 x3 y3) (mkPoint x y) acc)
   | 6, [x0; y0; x1; y1; x2; y2; x3; y3; x; y; acc] =>
-      d_out (cubic_nearest (mkc x0 y0 x1 y1 x2 y2 x3 y3) (mkPoint x y) acc)
+      d_out (cn rep (mkc x0 y0 x1 y1 x2 y2 x3 y3) (mkPoint x y) acc)
   | 7, [x0; y0; x1; y1; x2; y2; x3; y3; x; y; n] =>
-      pair_out (cubic_nearest_n (mkc x0 y0 x1 y1 x2 y2 x3 y3) (mkPoint x y) (Z.to_nat (F.to_usize n)))
+      pair_out (cnn rep (mkc x0 y0 x1 y1 x2 y2 x3 y3) (mkPoint x y) (Z.to_nat (F.to_usize n)))
   | 8, [x0; y0; x1; y1; x2; y2; x3; y3; acc] =>
       Some [z2f (nr_quads_count (mkc x0 y0 x1 y1 x2 y2 x3 y3) acc)]
   | 11, [x0; y0; x1; y1; x2; y2; x3; y3; x; y; n] =>
-      t_out (cubic_nearest_n (mkc x0 y0 x1 y1 x2 y2 x3 y3) (mkPoint x y) (Z.to_nat (F.to_usize n)))
+      t_out (cnn rep (mkc x0 y0 x1 y1 x2 y2 x3 y3) (mkPoint x y) (Z.to_nat (F.to_usize n)))
   | 12, [x0; y0; x1; y1; x2; y2; x3; y3; x; y; n] =>
-      d_out (cubic_nearest_n (mkc x0 y0 x1 y1 x2 y2 x3 y3) (mkPoint x y) (Z.to_nat (F.to_usize n)))
+      d_out (cnn rep (mkc x0 y0 x1 y1 x2 y2 x3 y3) (mkPoint x y) (Z.to_nat (F.to_usize n)))
   | 9, _ =>
       match seg_in a with
-      | Some (s, [x; y; acc]) => t_out (seg_nearest s (mkPoint x y) acc)
+      | Some (s, [x; y; acc]) => t_out (sn rep s (mkPoint x y) acc)
       | _ => None
       end
   | 10, _ =>
       match seg_in a with
-      | Some (s, [x; y; acc]) => d_out (seg_nearest s (mkPoint x y) acc)
+      | Some (s, [x; y; acc]) => d_out (sn rep s (mkPoint x y) acc)
       | _ => None
       end
   | _, _ => None
   end.
 
+Definition eval (op : Z) (a : list float) : option (list float) :=
+  if 20 <? op then eval_v true (op - 20) a else eval_v false op a.
+
 Definition tol (op : Z) : option float :=
-  match op with
+  match (if 20 <? op then op - 20 else op) with
   | 2 | 5 | 9 | 11 => Some 0x1.12e0be826d695p-30%float    (* 1e-9 *)
   | 3 | 6 | 10 | 12 => Some 0x1.19799812dea11p-40%float   (* 1e-12 *)
   | _ => None
